@@ -124,6 +124,11 @@ def logical_failures(R, g, fails, stats):
             "invalid_regex": [G + ["replace", "(" + s, t]],
         }
         scripts["non_utf8_names"] = ["NONUTF8", G + ["rename", s, t], G + ["undo", "latest"]]
+        # a file the scanner plans but apply cannot read: text in a legacy encoding (Latin-1) with a match, sorted after the others;
+        # the same with plan + apply, and with replace
+        scripts["non_utf8_content"] = ["LATIN1", G + ["rename", s, t]]
+        scripts["non_utf8_content_plan_apply"] = ["LATIN1", G + ["plan", s, t, "--quiet"], G + ["apply"]]
+        scripts["non_utf8_content_replace"] = ["LATIN1", G + ["replace", "--no-regex", s, t]]
         for name, script in scripts.items():
             with cli.Sandbox(tree) as sb:
                 first_id = None
@@ -138,6 +143,9 @@ def logical_failures(R, g, fails, stats):
                             os.symlink("../not-mounted-yet", dest)
                         else:
                             dest.write_bytes(b"a file where the directory wants to go\n")
+                        continue
+                    if cmd == "LATIN1":
+                        (sb.root / "zz_legacy.txt").write_bytes(b"caf\xe9 uses " + s.encode() + b" too\n")
                         continue
                     if cmd == "NONUTF8":
                         # names that are not valid UTF-8 (legal on Linux) cannot be written into plan.json / history.json
